@@ -248,13 +248,10 @@ class QfixedImp(float, Qtype):
         if not issubclass(tleft[0], Qtype):
             raise TypeErrorException(tleft[0], Qtype)
 
-        a = len(list(filter(lambda b: b is bool, tleft[1])))
-        b = len(list(filter(lambda b: b is bool, tright[1])))
-
-        if a == 0 and issubclass(tleft[0], QintImp):
+        if cls.is_const(tleft) and issubclass(tleft[0], QintImp):
             tconst = tleft
             top = tright
-        elif b == 0 and issubclass(tright[0], QintImp):
+        elif cls.is_const(tright) and issubclass(tright[0], QintImp):
             top = tleft
             tconst = tright
         else:
